@@ -38,6 +38,12 @@ SHAPES = {
     # names on which os.path / pathlib / splitext / shell-like handling could disagree
     "DX": [["a.tar.gz"], ["-dash"], ["x.torrent"], ["trailing.dot."], ["%41 #frag?q=1&r"], ["[br]{ace}", "semi;colon"],
            ["~tilde"], ["..two-dots"], ["sub.d", "...x"], ["sub.d", "CON"]],
+    # two directory symlinks inside the payload that lead to the same real directory
+    "DSYM": [["v2.1", "a.bin"], ["v2.1", "sub", "b.bin"], ["top.bin"]],
+    # payload members that are symbolic links to a file / a directory OUTSIDE the content root
+    "DEXT": [["a.bin"], ["z.bin"], ["@ext", "big.bin"], ["@ext", "extdir", "e.bin"]],
+    # real files where clients store padding: .pad/<decimal>
+    "DPAD": [[".pad", "12768"], [".pad", "x7"], ["a.bin"], ["b", "c.bin"]],
     "DW": [["w%03d" % k] if k % 5 else ["grp%d" % (k // 50), "w%03d" % k] for k in range(200)],    # hundreds of files
     "DDEEP": [["n%d" % d for d in range(40)] + ["leaf.bin"], ["n%d" % d for d in range(20)] + ["mid.bin"], ["top.bin"]],
     "DM": [["m%02d" % k] if k % 3 else ["g%d" % (k // 3), "m%02d" % k] for k in range(14)],   # many files
@@ -63,6 +69,13 @@ def mk_tree(shape, sizes, name=None, modes=None, nv=0):
     if modes:
         for f, m in zip(t["files"], modes):
             f["mode"] = m
+    if shape == "DSYM":
+        t["symlinks"] = [{"path": ["current"], "target": ["v2.1"]}, {"path": ["latest"], "target": ["v2.1"]},
+                         {"path": ["v2.1", "sub", "again"], "target": ["v2.1", "sub"]}][:2]
+    if shape == "DEXT":
+        t["ext_files"] = [{"path": f["path"][1:], "size": f["size"]} for f in t["files"] if f["path"][0] == "@ext"]
+        t["files"] = [f for f in t["files"] if f["path"][0] != "@ext"]
+        t["symlinks"] = [{"path": ["linked.bin"], "ext": ["big.bin"]}, {"path": ["ldir"], "ext": ["extdir"]}]
     if shape in ("D4", "D5"):
         t["dirs"] = [["emptydir"], ["d", "alsoempty"]]       # directories without files
     if shape == "DL":            # the last two names are hard links of the first two files
@@ -98,14 +111,19 @@ def gen_trees(tier, rng, plens, quick_n, thorough_n, need_nonempty=True):
     small = [0, 1, 2, 3, 5, B - 1, B, B + 1]
     out.append(("DW", tuple(rng.choice(small) if k % 7 else rng.choice(alphabet(P0)) for k in range(200)), P0))
     out.append(("DDEEP", (P0 + 1, 2 * P0, 5), P0))
+    # symbolic links inside the payload (two links to one directory; links leading outside the root); .pad/<n> files
+    for sh in ("DSYM", "DEXT", "DPAD"):
+        for P in plens[:2]:
+            out.append((sh, tuple(rng.choice([a for a in alphabet(P) if a]) for _ in SHAPES[sh]), P))
     # large piece lengths (what the automatic choice gives for big payloads)
     M = 2 ** 20
     for Pbig, szs in ((2 * M, (3 * M,)), (2 * M, (2 * M + 1, 5)), (M, (M + 5, 3)), (4 * M, (5 * M + 1,)),
                       (8 * M, (M + 7, 9 * M + 3, 100 * 1024)),      # a piece reaching > 4 MiB into the next file
-                      (64 * M, (M + 7, 5))):                         # > 32 MiB of padding after a file (hybrid / align)
+                      (64 * M, (M + 7, 5)),                          # > 32 MiB of padding after a file (hybrid / align)
+                      (8 * M, (12 * M,)), (8 * M, (4 * M, 3)), (16 * M, (20 * M,))):   # sizes on MiB-sized read boundaries inside a piece
         out.append(({1: "S1", 2: "D2", 3: "D3"}[len(szs)], szs, Pbig))
     n = thorough_n if tier == "thorough" else quick_n
-    shapes = ["D3", "D4", "D2n", "D2", "DN", "DNf", "DC", "DU", "D5", "DNFC", "DS", "DL", "DM", "DX"]
+    shapes = ["D3", "D4", "D2n", "D2", "DN", "DNf", "DC", "DU", "D5", "DNFC", "DS", "DL", "DM", "DX", "DSYM", "DEXT", "DPAD"]
     for _ in range(n):
         P = rng.choice(plens)
         A = alphabet(P)
